@@ -71,10 +71,10 @@ def run(chk):
                   'W4': 'nested-loop programs of <= %d instructions' % (5 if quick else 7)}
     chk.assume_note('memory high-water mark is not observable here (DESIGN §5.3); data growth per step is bounded by the C10 lemmas')
     chk.assume_note('longer programs and larger iteration counts follow from W1/W2 and the C10 loop lemma (both sides scale linearly in n)')
-    w1_car_weights(chk, it)
-    w2_loop_weight(chk, it, 3 if quick else 4)
-    w3_steps_within_weight(chk, it, 2 if quick else 3)
-    w4_weighing_is_cheap(chk, it, 5 if quick else 7)
+    chk.guard(w1_car_weights, chk, it)
+    chk.guard(w2_loop_weight, chk, it, 3 if quick else 4)
+    chk.guard(w3_steps_within_weight, chk, it, 2 if quick else 3)
+    chk.guard(w4_weighing_is_cheap, chk, it, 5 if quick else 7)
 
 
 def w1_car_weights(chk, it):
